@@ -228,8 +228,23 @@ class C07(Prop):
                 if rng.random() < 0.7:
                     c['mode_future'] = 'remove'
                 c['stream'] += ':no-opens-until-after-the-cut'
+            two_vendors = False
+            if c['market']['kind'] == 'csv' and not c['market'].get('backup') and rng.random() < 0.15:
+                # two vendors for the same assets: the one listed first stops a couple of days after the cut, the second one (other
+                # quotes, a slightly shorter past) runs on; with the future removed the second one is the shorter file
+                T_ = c['T']
+                full = c['market']['assets']
+                backup = dict((n_, ([[r_[0]] + [None if v_ is None else v_ * 1.5 for v_ in r_[1:]] for r_ in rows_][5:]) or
+                               [[rows_[-1][0]] + [None if v_ is None else v_ * 1.5 for v_ in rows_[-1][1:]]]) for n_, rows_ in full.items())
+                prim = dict((n_, [r_ for r_ in rows_ if r_[0] <= T_ + 2] or rows_[:1]) for n_, rows_ in full.items())
+                c['market'] = dict(c['market'], assets=prim, backup=backup)
+                c['mode_future'] = 'remove'
+                c['stream'] += ':two-vendors-first-one-ends-after-the-cut'
+                two_vendors = True
             c['market2'] = future_rewrite(rng, c['market'], c['T'], c['mode_future'])
-            if c['market']['kind'] == 'csv' and rng.random() < 0.15:
+            if two_vendors:
+                c['market2']['backup'] = dict((n_, [r_ for r_ in rows_ if r_[0] <= c['T']] or rows_[:1]) for n_, rows_ in c['market']['backup'].items())
+            if c['market']['kind'] == 'csv' and not two_vendors and rng.random() < 0.15:
                 # a re-rating on the cut day: one asset's prices jump by 80 % on T; in one world the new level holds, in the
                 # other the jump is undone the next day (the two worlds agree on every bar up to and including T)
                 a_ = rng.choice(sorted(c['market']['assets']))
